@@ -142,14 +142,15 @@ func TestC05(t *testing.T) {
 	defer r.Close()
 	r.Meta(vc.Meta{
 		Level:       "exploration",
-		Rule:        "case = one scenario (signal, config over send_batch_size{0,1,2,3,7,100} x max{0,size,size+1,2size-1} x timeout{0,1ms,1s} x metadata keys x max_concurrency{0,1,2,4} x early_return; 1-6 concurrent callers with 1-3 requests of several resources/scopes/metrics incl. empty containers and all metric kinds, non-empty schema URLs everywhere; export latency/failure script; PRNG virtual-time delays at hook points; Shutdown either after all callers returned or while items are still buffered) run against the real processor. Offline oracle over the boundary log: every uid of an accepted request is passed to the next consumer exactly once, no uid twice, none invented, and the JSON of (resource+schemaUrl, scope+schemaUrl, [metric descriptor,] item) of every exported item equals what was submitted. Layers: bubble (synctest) and stress (real goroutines, GOMAXPROCS 2/16). Non-trivial = scenario in which a batch merged >=2 requests or a request was split over >=2 batches. Distinct = (signal, config, #requests, #exports, shutdown mode, hook table size, failure script).",
+		Rule:        "case = one scenario (signal, config over send_batch_size{0,1,2,3,7,100} x max{0,size,size+1,2size-1} x timeout{0,1ms,1s} x metadata keys x max_concurrency{0,1,2,4} x early_return; 1-6 concurrent callers with 1-3 requests of several resources/scopes/metrics incl. empty containers and all metric kinds, non-empty schema URLs everywhere; export latency/failure script; PRNG virtual-time delays at hook points; Shutdown either after all callers returned or while items are still buffered) run against the real processor. Offline oracle over the boundary log: every uid of an accepted request is passed to the next consumer exactly once, no uid twice, none invented, and the JSON of (resource+schemaUrl, scope+schemaUrl, [metric descriptor,] item) of every exported item equals what was submitted. Layers: bubble (synctest), delay-sweep (a base scenario run without hook delays, then re-run once per (hook hit, duration) with exactly that one hit held back, then with PRNG pairs of hits held back) and stress (real goroutines, GOMAXPROCS 2/16). Non-trivial = scenario in which a batch merged >=2 requests or a request was split over >=2 batches. Distinct = (signal, config, #requests, #exports, shutdown mode, hook table size, failure script).",
 		Assumptions: bpAssumptions,
 		Gates: map[string]map[string]int{
-			"quick":    {"scenarios": 500, "items_exported": 5000, "splits_inside_a_scope": 20, "merges_of_3+_requests": 20, "exports_during_shutdown_flush": 20, "split_metric_kinds": 5},
-			"thorough": {"scenarios": 15000, "items_exported": 150000, "splits_inside_a_scope": 500, "merges_of_3+_requests": 500, "exports_during_shutdown_flush": 500, "split_metric_kinds": 5},
+			"quick":    {"scenarios": 500, "items_exported": 5000, "splits_inside_a_scope": 20, "merges_of_3+_requests": 20, "exports_during_shutdown_flush": 20, "split_metric_kinds": 5, "delay_sweep_single_delays_enumerated": 1000},
+			"thorough": {"scenarios": 15000, "items_exported": 150000, "splits_inside_a_scope": 500, "merges_of_3+_requests": 500, "exports_during_shutdown_flush": 500, "split_metric_kinds": 5, "delay_sweep_single_delays_enumerated": 30000},
 		},
 	})
 	e := r.Env
+	var subLabel string // set by the delay-sweep layer: its runs are sub-cases of one case
 	post := func(c *vc.Case, run *Run, err error, stuck []string) {
 		ix := BuildIndex(run)
 		if err != nil {
@@ -203,9 +204,29 @@ func TestC05(t *testing.T) {
 				}
 			}
 		}
+		if subLabel != "" {
+			c.SubNT(subLabel+"|"+scenarioFP(run.Sc, ix), merged || split)
+			return
+		}
 		c.FP(scenarioFP(run.Sc, ix))
 		c.Nontrivial(merged || split)
 	}
+	// systematic single-delay enumeration over a base with splits (see sweep_test.go)
+	r.Layer("delay-sweep", e.Pick(16, 240), func(c *vc.Case) {
+		sc := GenScenario(c.R, Profile{Sig: -1, Keys: c.R.IntN(4) == 0, Cancels: c.R.IntN(3) == 0, Fails: true, HookMode: "none", EarlyReturn: -1, MaxCallers: 4})
+		if sc.Cfg.SendBatchMaxSize == 0 && c.R.IntN(3) != 0 {
+			sc.Cfg.SendBatchMaxSize = sc.Cfg.SendBatchSize + uint32(c.R.IntN(2))
+			if sc.Cfg.SendBatchMaxSize == 0 {
+				sc.Cfg.SendBatchMaxSize = 2
+			}
+		}
+		sc.Label = "delay-sweep"
+		defer func() { subLabel = "" }()
+		delaySweep(t, c, sc, c.R.Uint64(), true, e.Pick(120, 400), e.Pick(30, 200), func(run *Run, err error, label string) {
+			subLabel = label
+			post(c, run, err, nil)
+		})
+	})
 	r.Layer("bubble", e.Pick(600, 20000), func(c *vc.Case) {
 		sc := GenScenario(c.R, Profile{Sig: -1, Keys: true, Cancels: c.R.IntN(4) == 0, Fails: true, HookMode: "all", EarlyReturn: -1, SharedCtx: true})
 		sc.Label = "bubble"
